@@ -12,7 +12,9 @@
 EXTENDS Integers, Sequences, SequencesExt, FiniteSets, TLC, Json, IOUtils
 
 CONSTANT NChunks
-Recs == ndJsonDeserialize(IOEnv.TRACE)
+\* parsed once at start-up into a TLC register (TLC re-evaluates a definition that reads a file on every reference)
+ASSUME TLCSet(7, ndJsonDeserialize(IOEnv.TRACE))
+Recs == TLCGet(7)
 Terminal == {"exit"}
 \* want.kind: "terminal" | "status" (want.rc) | "rterror" (a runtime error must be reported) | "clean" (no runtime error)
 Verdict(rec) ==
